@@ -793,7 +793,7 @@ def same_obs(k, a, b):
         def contents(mp):
             sc = mp.get('sourcesContent') or []
             return {n: ((sc[i] if i < len(sc) else None) or '') for i, n in enumerate(mp['sources'])}
-        return map_segs(ma) == map_segs(mb) and ma['sources'] == mb['sources'] and ma['names'] == mb['names'] and contents(ma) == contents(mb)
+        return map_segs(ma) == map_segs(mb) and ma['sources'] == mb['sources'] and ma['names'] == mb['names'] and contents(ma) == contents(mb) and ma.get('debugId') == mb.get('debugId')
     sa, sb = a['streams'][k], b['streams'][k]
     if sa['end'] != sb['end']: return False
     ca = {e[2]: (e[3] or '') for e in sa['events'] if e[0] == 'source'}; cb = {e[2]: (e[3] or '') for e in sb['events'] if e[0] == 'source'}
